@@ -186,9 +186,10 @@ def make_program(idx, kind, ca, structure, feats, flags, validators=True):
     elif structure == "methods":
         if kind != "dataclass":
             return None
+    if kind == "dataclass" and (structure == "methods" or idx % 2 == 0):
         hows = ["serialized", "resolver-serialized", "serialized-alias", "resolver-serialized-alias"]
-        for j in range(2):
-            how = hows[(idx + j * 2 + (j and idx // 4 % 2)) % 4]
+        for j in range(2 if structure == "methods" else 1):
+            how = hows[(idx // 2 + j * 2 + (j and idx // 4 % 2)) % 4]
             al = None
             if how.endswith("-alias"):
                 al = ["meth_alias", "methAlias", "class"][(idx + j) % 3] + ("" if j == 0 else "2")
